@@ -260,7 +260,16 @@ def await_parallel(eng, st, p, node):
         arr = z3.Const(fresh_name('par_ret'), z3.ArraySort(z3.IntSort(), rs))
         results = SV(TList(c.ret), [arr, n])
     frame_objs = p.get('frame')
-    for ens in c.ensures:
+    # triggers: the element-dependent argument terms (e.g. xs[j]) -- a fact about element j fires wherever xs[j] occurs
+    pats = []
+    _pr = z3.Int(fresh_name('jp'))
+    for _v in env_j.values():
+        _z = getattr(_v, 'z', None)
+        if _z is not None and z3.is_expr(_z) and not _z.eq(j) and not z3.substitute(_z, (j, _pr)).eq(_z):
+            pats.append(_z)
+    for ens_i, ens in enumerate(c.ensures):
+        if c.ensure_names[ens_i] in c.seq_only:
+            continue
         s2 = post.copy()
         s2.env = dict(env_j)
         if results is not None:
@@ -269,7 +278,16 @@ def await_parallel(eng, st, p, node):
         old.env = dict(env_j)
         s2.old = old
         cond = eng.spb(ens, s2, -1)
-        facts.append(FA([j], z3.Implies(z3.And(0 <= j, j < n), cond), patterns=[]))
+        probe = z3.Int(fresh_name('jprobe'))
+        if z3.substitute(cond, (j, probe)).eq(cond):
+            facts.append(cond)          # does not depend on the element: holds because there is at least one (n > 0 here)
+        else:
+            facts.append(FA([j], z3.Implies(z3.And(0 <= j, j < n), cond), patterns=pats))
+            # conjuncts of the clause that do not mention the element hold outright as well
+            if z3.is_and(cond):
+                for cj in cond.children():
+                    if z3.substitute(cj, (j, probe)).eq(cj):
+                        facts.append(cj)
     ns = post.assume(*facts)
     ns.env = st.env
     ns.old = st.old
